@@ -728,6 +728,34 @@ fn sweep_history(pal: &Palette, depth: ColorDepth) -> (u64, Vec<(String, u64, Va
                                 if role == Role::Ul && depth == ColorDepth::Gray {
                                     continue;
                                 }
+                                // the first emission into a sink that fails after "ESC [": the next one, into a working
+                                // sink, is judged like a fresh encoder's
+                                if first_c[3] == 255 && b % 51 == 0 {
+                                    evals += 1;
+                                    let mut enc = new_encoder(depth);
+                                    let _ = catch(|| {
+                                        let mut small = [0u8; 2];
+                                        let mut sink: &mut [u8] = &mut small;
+                                        let rgba = RGBA::new(first_c[0], first_c[1], first_c[2], 255);
+                                        let cmd = match first_role {
+                                            Role::Fg => TerminalCommand::Face(Face { fg: Some(rgba), ..Face::default() }),
+                                            Role::Bg => TerminalCommand::Face(Face { bg: Some(rgba), ..Face::default() }),
+                                            Role::Ul => TerminalCommand::FaceModify(FaceModify { underline_color: Some(rgba), ..FaceModify::default() }),
+                                            Role::ModFg => TerminalCommand::FaceModify(FaceModify { fg: Some(rgba), ..FaceModify::default() }),
+                                            Role::ModBg => TerminalCommand::FaceModify(FaceModify { bg: Some(rgba), ..FaceModify::default() }),
+                                        };
+                                        let _ = enc.encode(&mut sink, cmd);
+                                    });
+                                    if let Err(f) = eval_once(pal, &mut enc, &mut out, role, depth, c, false) {
+                                        let key = format!("{}:{}:after-failed-{}:{}", role.name(), depth_name(depth), first_role.name(), f.kind);
+                                        let e = fails.entry(key).or_insert_with(|| {
+                                            let mut w = witness(role, depth, c);
+                                            w["before_failed"] = json!([first_role.name(), hex_color([first_c[0], first_c[1], first_c[2]])]);
+                                            (0, w, String::new())
+                                        });
+                                        e.0 += 1;
+                                    }
+                                }
                                 evals += 1;
                                 let mut enc = new_encoder(depth);
                                 let _ = catch(|| emit_rgba(&mut enc, &mut out, first_role, first_c));
@@ -739,6 +767,21 @@ fn sweep_history(pal: &Palette, depth: ColorDepth) -> (u64, Vec<(String, u64, Va
                                         (0, w, String::new())
                                     });
                                     e.0 += 1;
+                                }
+                                // third emission: the first command once more (an encoder may remember what it
+                                // sent last); it must come out like a fresh encoder's
+                                if first_c[3] == 255 && !(first_role == Role::Ul && depth == ColorDepth::Gray) {
+                                    evals += 1;
+                                    let fc = [first_c[0], first_c[1], first_c[2]];
+                                    if let Err(f) = eval_once(pal, &mut enc, &mut out, first_role, depth, fc, false) {
+                                        let key = format!("{}:{}:again-after-{}:{}", first_role.name(), depth_name(depth), role.name(), f.kind);
+                                        let e = fails.entry(key).or_insert_with(|| {
+                                            let mut w = witness(first_role, depth, fc);
+                                            w["before"] = json!([[first_role.name(), hex_color(fc), 255], [role.name(), hex_color(c), 255]]);
+                                            (0, w, String::new())
+                                        });
+                                        e.0 += 1;
+                                    }
                                 }
                             }
                         }
@@ -979,6 +1022,24 @@ pub fn replay(w: &Value) -> Result<(bool, String), String> {
             let _ = catch(|| emit_rgba(&mut enc, &mut out, r0, [c0[0], c0[1], c0[2], a0]));
             before.push_str(&format!("after {} alpha {} as {} (emitted {}) on the same encoder: ", hex_color(c0), a0, r0.name(), crate::engine::util::esc(&out)));
         }
+    }
+    if let Some(bf) = w.get("before_failed") {
+        let r0 = bf[0].as_str().and_then(Role::from_name).ok_or("bad role in before_failed")?;
+        let c0 = bf[1].as_str().and_then(parse_hex).ok_or("bad color in before_failed")?;
+        let _ = catch(|| {
+            let mut small = [0u8; 2];
+            let mut sink: &mut [u8] = &mut small;
+            let rgba = RGBA::new(c0[0], c0[1], c0[2], 255);
+            let cmd = match r0 {
+                Role::Fg => TerminalCommand::Face(Face { fg: Some(rgba), ..Face::default() }),
+                Role::Bg => TerminalCommand::Face(Face { bg: Some(rgba), ..Face::default() }),
+                Role::Ul => TerminalCommand::FaceModify(FaceModify { underline_color: Some(rgba), ..FaceModify::default() }),
+                Role::ModFg => TerminalCommand::FaceModify(FaceModify { fg: Some(rgba), ..FaceModify::default() }),
+                Role::ModBg => TerminalCommand::FaceModify(FaceModify { bg: Some(rgba), ..FaceModify::default() }),
+            };
+            let _ = enc.encode(&mut sink, cmd);
+        });
+        before.push_str(&format!("after {} as {} written into a sink that failed after two bytes, on the same encoder: ", hex_color(c0), r0.name()));
     }
     let first = if let Some(fgv) = w.get("same_command_fg") {
         // foreground and background set by one command; the background is judged
